@@ -1,11 +1,11 @@
 SPECIFICATION Spec
 CONSTANTS
- Threads = {1,2,3}
+ Threads = {1,2}
  MaxOps = 3
  W = 16
  HT <- HTMixed
  Alphabet <- AlphaMixed
  FineCas = FALSE
  Retry = TRUE
-INVARIANTS TypeOK IncOnlySum AbsMonotone AbsFloor NoLostUpdate SetExact ExactlyN NoValueDisables
+INVARIANTS TypeOK IncOnlySum AbsMonotone AbsFloor NoLostUpdate SetExact ExactlyN 
 CHECK_DEADLOCK FALSE
